@@ -14,8 +14,9 @@ from . import regexgram as G
 from . import specs as S
 from .base import BaseProp
 from .core import canon, dec, derive, enc, fast_digest
+from .known import classify
 
-SEEDS = [0, 1, -1, 7, 42, 2 ** 31, 2 ** 64 + 3, -(2 ** 70), 10 ** 30, 0.0, 1.5, -2.25, 1e300,
+SEEDS = [float("nan"), 0, 1, -1, 7, 42, 2 ** 31, 2 ** 64 + 3, -(2 ** 70), 10 ** 30, 0.0, 1.5, -2.25, 1e300,
          "", "seed", "日本", b"", b"\x00\xff", "a" * 100]
 
 
@@ -82,7 +83,8 @@ class Prop(BaseProp):
         live = [s for s in schemas if s is not None]
         for _ in range(nr.randint(1, 4)):
             op = nr.choice(("validate", "repr", "represent", "declare", "eq", "substitute", "validate_bad",
-                            "new_random", "from_native", "iterate"))
+                            "new_random", "from_native", "iterate", "new_generator", "combine", "make_required",
+                            "validate_or_fail", "fake_fixed", "getstate_free"))
             s = nr.choice(live)
             self.probes["noise:" + op] += 1
             try:
@@ -112,6 +114,31 @@ class Prop(BaseProp):
                 elif op == "from_native":
                     from d42.utils import from_native
                     from_native({"a": [1, 2.5, "x", None]})
+                elif op == "new_generator":
+                    from d42.generation import Generator, RegexGenerator
+                    Generator(self.Random(), RegexGenerator(self.Random(), max_repeat=3))
+                elif op == "combine":
+                    s | nr.choice(live)
+                    d1 = self.schema.dict({"a": self.schema.int, ...: ...})
+                    d1 + self.schema.dict({"b": self.schema.str, "a": self.schema.float})
+                elif op == "make_required":
+                    from d42.utils import make_required
+                    from d42 import optional
+                    make_required(self.schema.dict({optional("k"): self.schema.int}), ["k"])
+                elif op == "validate_or_fail":
+                    from d42 import validate_or_fail
+                    try:
+                        validate_or_fail(s, nr.choice((None, 1, "x", [], {})))
+                    except AssertionError:
+                        pass
+                elif op == "fake_fixed":
+                    # generation from fully fixed schemas consumes no draw, so it is "non-generating" for the stream
+                    self.fake(self.schema.dict({"a": self.schema.int(1), "b": self.schema.list([self.schema.str("x")])}))
+                    self.fake(self.schema.none)
+                elif op == "getstate_free":
+                    import re
+                    re.compile(r"[a-c]+\d{2}")
+                    sorted({"b", "a", "c"})
                 elif op == "iterate":
                     try:
                         list(iter(s))
@@ -131,13 +158,16 @@ class Prop(BaseProp):
         schemas2 = self.build_all(case)
         d = self.values(case, schemas2)               # freshly built equal schemas
         violations = []
+        feats = seed_features(case)
         for label, other in (("repeat_same_process", b), ("interleaved_noise", c), ("rebuilt_schemas", d)):
             if other != a:
                 idx = [i for i, (x, y) in enumerate(zip(a, other)) if x != y]
                 sig = {"property": "C17", "outcome": "differs:" + label}
-                violations.append(self.make_violation(
+                v = self.make_violation(
                     "C17", sig, case, {"mode": label}, "schemas %s differ: %s vs %s" % (idx, a[idx[0]][:80], other[idx[0]][:80]),
-                    {"features": [], "event_digest": fast_digest([a, other])}))
+                    {"features": feats, "event_digest": fast_digest([a, other])})
+                v["kf"] = classify(v, self.args.get("known", []))
+                violations.append(v)
         p = self.probes
         for sp in case["specs"]:
             fs = spec_features(sp)
@@ -166,8 +196,10 @@ class Prop(BaseProp):
             self.probes["warm_process_rechecks"] += 1
             if a != b:
                 sig = {"property": "C17", "outcome": "differs:warm_process"}
-                out.append(self.make_violation("C17", sig, case, {"mode": "warm"}, "warm re-run differs",
-                                               {"features": [], "event_digest": fast_digest([a, b])}))
+                v = self.make_violation("C17", sig, case, {"mode": "warm"}, "warm re-run differs",
+                                        {"features": seed_features(case), "event_digest": fast_digest([a, b])})
+                v["kf"] = classify(v, self.args.get("known", []))
+                out.append(v)
         return out
 
     # ------------------------------------------------------------ shrink / replay (in-process kinds)
@@ -186,10 +218,20 @@ class Prop(BaseProp):
         if a == other:
             return None
         sig = {"property": "C17", "outcome": "differs:" + mode}
-        v = self.make_violation("C17", sig, case, schedule_json, "differs", {"features": [], "event_digest": fast_digest([a, other])})
+        v = self.make_violation("C17", sig, case, schedule_json, "differs", {"features": seed_features(case), "event_digest": fast_digest([a, other])})
+        v["kf"] = classify(v, self.args.get("known", []))
         if sig_id is not None and v["sig_id"] != sig_id:
             return None
+        if getattr(self, "_kf_target", "__any__") != "__any__" and v["kf"] != self._kf_target:
+            return None
         return v
+
+    def minimise(self, v, budget_s=15, max_exec=2000):
+        self._kf_target = v.get("kf")
+        try:
+            return super().minimise(v, budget_s, max_exec)
+        finally:
+            self._kf_target = "__any__"
 
     def shrink_candidates(self, v):
         case, sched = v["case"], v["schedule"]
@@ -222,6 +264,11 @@ def gen_case(labels, cfg):
     return {"k": enc(seed), "specs": specs, "noise_seed": derive(*labels, "noise")}
 
 
+def seed_features(case):
+    k = dec(case["k"])
+    return ["seed_nan"] if isinstance(k, float) and k != k else []
+
+
 def shrink_case(case):
     specs = case["specs"]
     if len(specs) > 1:
@@ -231,7 +278,7 @@ def shrink_case(case):
         for c in S.shrink_spec(sp):
             yield dict(case, specs=specs[:i] + [copy.deepcopy(c)] + specs[i + 1:])
     k = dec(case["k"])
-    if k != 0:
+    if k != 0 and not (isinstance(k, float) and k != k):
         yield dict(case, k=0)
 
 
